@@ -126,7 +126,18 @@ int xcm_dns_query_result(struct xcm_dns_query *q, struct xcm_addr_ip *ips, int c
     return g_query_rc;
 }
 void xcm_dns_query_destroy(struct xcm_dns_query *q, bool owner) { (void)owner; if (q != NULL) g_query_destroyed = true; }
-int xcm_dns_resolve_sync(struct xcm_addr_host *host, void *log_ref) { (void)log_ref; CHECK(0, "C05: no synchronous name resolution on these paths"); host->type = xcm_addr_type_ip; return 0; }
+/* xcm_dns_resolve_sync: returns at once for an IP address; for a NAME it sits in poll(fd, 1, -1) until the resolver answers or
+ * gives up (SYNC_DNS_TIMEOUT = 10 s) - see dns/dns_h.c.  Only a blocking socket may get there. */
+static bool g_socket_blocking, g_laddr_failed; static int g_sync_waits;
+int xcm_dns_resolve_sync(struct xcm_addr_host *host, void *log_ref)
+{
+    (void)log_ref;
+    if (host->type == xcm_addr_type_ip) return 0;
+    g_sync_waits++;
+    CHECK(g_socket_blocking, "C05: establishing a connection on a non-blocking socket never waits for a name resolution (xcm_dns_resolve_sync polls with an infinite timeout)");
+    if (nd_bool()) { g_laddr_failed = true; errno = ENOENT; return -1; }
+    host->type = xcm_addr_type_ip; return 0;
+}
 bool xcm_dns_supports_timeout_param(void) { return true; }
 struct xcm_dns_query *xcm_dns_resolve(const char *n, struct xpoll *x, double t, void *l) { (void)n; (void)x; (void)t; (void)l; return (struct xcm_dns_query *)&query_token; }
 struct tconnect *tconnect_create(enum tconnect_algorithm a, struct xpoll *x, void *l) { (void)a; (void)x; (void)l; return (struct tconnect *)&tconnect_token; }
@@ -156,7 +167,11 @@ const char *tconnect_algorithm_str(enum tconnect_algorithm a) { return a == tcon
 enum tconnect_algorithm tconnect_algorithm_enum(const char *s) { (void)s; return (enum tconnect_algorithm)nd_range(0, 3); }
 void tp_ip_to_sockaddr(const struct xcm_addr_ip *ip, uint16_t port, int64_t scope, struct sockaddr *sa) { (void)ip; (void)port; (void)scope; (void)sa; }
 void tp_sockaddr_to_btcp_addr(struct sockaddr_storage *sa, char *a, size_t cap) { (void)sa; if (cap > 4) { a[0] = 'b'; a[1] = ':'; a[2] = nd_bool() ? '1' : '2'; a[3] = 0; } }
-int xcm_addr_parse_btcp(const char *a, struct xcm_addr_host *h, uint16_t *p) { (void)a; if (nd_bool()) { errno = EINVAL; return -1; } h->type = nd_bool() ? xcm_addr_type_ip : xcm_addr_type_name; *p = nd_u16(); return 0; }
+int xcm_addr_parse_btcp(const char *a, struct xcm_addr_host *h, uint16_t *p) { (void)a; if (nd_bool()) { g_laddr_failed = true; errno = EINVAL; return -1; } h->type = nd_bool() ? xcm_addr_type_ip : xcm_addr_type_name; *p = nd_u16();
+#ifdef KF_LOCAL_NAME_SYNC_RESOLVE
+    ASSUME(h->type == xcm_addr_type_ip);          /* known finding C05-named-local-addr-resolved-synchronously assumed away: local addresses are numeric */
+#endif
+    return 0; }
 
 /* the code under test */
 #include "dns_attr.c"
@@ -460,7 +475,10 @@ int main(void)
     build_conn(false);
     ASSUME(pre.state == conn_state_resolving || pre.state == conn_state_connecting);
     struct tcp_opts cur = BTS->conn.tcp_opts;     /* "anything was set while connecting" */
+    S->is_blocking = g_socket_blocking = nd_bool();
+    if (nd_bool()) { BTS->laddr[0] = 'l'; BTS->laddr[1] = 0; }      /* xcm.local_addr given at creation (numeric or by name: xcm_addr_parse_btcp mock) */
     try_establish(S);
+    WITNESS(g_sync_waits == 0 && BTS->laddr[0] != 0 && g_tc_connect_calls == 1, "connect started from a numeric local address");
     enum conn_state st = BTS->conn.state;
     if (st == conn_state_ready) {
 	CHECK(BTS->fd == DATA_FD && g_fd_add_calls == 1 && g_fd_add_fd == DATA_FD, "C04: the established descriptor is registered");
@@ -474,6 +492,7 @@ int main(void)
 	else {
 	    CHECK(g_query_destroyed && BTS->conn.query == NULL, "C08: a completed query is released");
 	    if (g_query_rc < 0) CHECK(st == conn_state_bad && BTS->conn.badness_reason == g_query_errno, "C13: resolver failure or timeout fails the connection with the resolver's errno (ENOENT)");
+	    else if (g_laddr_failed) CHECK(st == conn_state_bad && g_tc_connect_calls == 0 && (BTS->conn.badness_reason == EINVAL || BTS->conn.badness_reason == ENOENT), "C13: a local address that cannot be parsed or resolved fails the connection with that errno, no connect is attempted");
 	    else {
 		CHECK(g_tc_connect_calls == 1 && g_tc_num_ips == g_query_rc, "C13: the resolver's address list is passed on whole");
 		CHECK(g_tc_opts_arg == &BTS->conn.tcp_opts && g_tc_port_arg == BTS->conn.remote_port, "C11,C13: tconnect gets the connection's own options and port");
@@ -482,7 +501,7 @@ int main(void)
 	    WITNESS(g_query_rc == 4 && st == conn_state_connecting, "4 addresses resolved, TCP connect pending");
 	}
     }
-    if (pre.state == conn_state_connecting || (pre.state == conn_state_resolving && g_query_completed && g_query_rc > 0 && g_tc_connect_rc == 0)) {
+    if (pre.state == conn_state_connecting || (pre.state == conn_state_resolving && g_query_completed && g_query_rc > 0 && g_tc_connect_rc == 0 && !g_laddr_failed)) {
 	if (g_tc_get_rc < 0 && g_tc_get_errno == EAGAIN) CHECK(st == conn_state_connecting, "C13: a pending connect keeps the connection connecting");
 	if (g_tc_get_rc < 0 && g_tc_get_errno != EAGAIN) CHECK(st == conn_state_bad && BTS->conn.badness_reason == g_tc_get_errno, "C06,C13: the errno of the last failed attempt is remembered");
     }
